@@ -122,6 +122,30 @@ _subtree = st.fixed_dictionaries({"base": st.one_of(_gn_simple, st.fixed_diction
                                   "min": st.sampled_from([-1, -1, 0, 3]), "max": st.sampled_from([-1, -1, 5, 200])})
 
 
+# DER length boundaries: extension values whose content is exactly L bytes (the one-byte / two-byte / three-byte length forms meet at 127/128 and
+# 255/256; the Extension, its OCTET STRING and the inner SEQUENCE each add 2..4 header bytes, so a neighbourhood of each boundary is covered)
+_AIM_L = st.sampled_from([118, 119, 120, 121, 122, 123, 124, 125, 126, 127, 128, 129, 130, 131, 132, 245, 246, 247, 248, 249, 250, 251, 252, 253, 254, 255, 256, 257, 258, 259, 260])
+
+
+def _host_of_len(n):
+    return ("a123456789" * 30)[:max(1, n)]
+
+
+def _aimed_gns(L):
+    """GeneralNames whose DER content is exactly L bytes: one dNSName ([2] IMPLICIT IA5String)"""
+    n = L - 2 if L - 2 < 128 else L - 3
+    if n >= 128 and L - 3 < 128:      # L = 130: no single string has this size; two names
+        return [{"c": 2, "s": _host_of_len(60)}, {"c": 2, "s": _host_of_len(L - 62 - 2)}]
+    return [{"c": 2, "s": _host_of_len(n)}]
+
+
+def _aimed_octets(L):
+    n = L - 2 if L - 2 < 128 else L - 3
+    if n >= 128 and L - 3 < 128:
+        return (D.enc_octets(bytes(60)) + D.enc_octets(bytes([7]) * (L - 62 - 2))).hex()
+    return D.enc_octets(bytes([9]) * n).hex()
+
+
 def _nonempty(pred, fix):
     return lambda d: d if pred(d) else fix(d)
 
@@ -135,8 +159,8 @@ EXT_S = {
     "ku": st.fixed_dictionaries({"k": st.just("ku"), "crit": _crit, "bits": st.integers(1, 511)}),
     "cp": st.fixed_dictionaries({"k": st.just("cp"), "crit": _crit, "policies": st.lists(_policy, min_size=1, max_size=3)}),
     "pm": st.fixed_dictionaries({"k": st.just("pm"), "crit": _crit, "maps": st.lists(st.tuples(_arcs, _arcs).map(list), min_size=1, max_size=3)}),
-    "san": st.fixed_dictionaries({"k": st.just("san"), "crit": _crit, "gns": st.lists(_gn, min_size=1, max_size=4)}),
-    "ian": st.fixed_dictionaries({"k": st.just("ian"), "crit": _crit, "gns": st.lists(_gn, min_size=1, max_size=3)}),
+    "san": st.fixed_dictionaries({"k": st.just("san"), "crit": _crit, "gns": st.one_of(st.lists(_gn, min_size=1, max_size=4), st.lists(_gn, min_size=1, max_size=4), _AIM_L.map(_aimed_gns))}),
+    "ian": st.fixed_dictionaries({"k": st.just("ian"), "crit": _crit, "gns": st.one_of(st.lists(_gn, min_size=1, max_size=3), st.lists(_gn, min_size=1, max_size=3), _AIM_L.map(_aimed_gns))}),
     "sda": st.fixed_dictionaries({"k": st.just("sda"), "crit": _crit, "attrs": st.lists(st.fixed_dictionaries({
         "oid": _arcs, "vals": st.lists(st.text(alphabet=_nz, min_size=1, max_size=10), min_size=1, max_size=2)}), min_size=1, max_size=2)}),
     "bc": st.fixed_dictionaries({"k": st.just("bc"), "crit": _crit, "ca": st.sampled_from([-1, 0, 1, 1]), "n": _optn}).map(
@@ -152,7 +176,8 @@ EXT_S = {
     "aia": st.fixed_dictionaries({"k": st.just("aia"), "crit": _crit, "ca_issuers": st.one_of(st.just(""), _uri), "ocsp": st.one_of(st.just(""), _uri)}).map(
         _nonempty(lambda d: d["ca_issuers"] or d["ocsp"], lambda d: dict(d, ocsp="http://ocsp.example"))),
     "seq": st.fixed_dictionaries({"k": st.just("seq"), "crit": _crit, "id": st.sampled_from(["cp", "pm", "sda", "san", "nc"]),
-                                  "d": st.lists(st.binary(max_size=12).map(D.enc_octets), min_size=1, max_size=3).map(lambda xs: b"".join(xs).hex())}),
+                                  "d": st.one_of(st.lists(st.binary(max_size=12).map(D.enc_octets), min_size=1, max_size=3).map(lambda xs: b"".join(xs).hex()),
+                                                 _AIM_L.map(_aimed_octets))}),
     # CRL extensions
     "crlnum": st.fixed_dictionaries({"k": st.just("crlnum"), "crit": st.sampled_from([-1, 0]), "n": _optn.map(lambda v: max(v, 0))}),
     "delta": st.fixed_dictionaries({"k": st.just("delta"), "crit": st.sampled_from([1, 1, -1]), "n": _optn.map(lambda v: max(v, 0))}),
